@@ -10,6 +10,9 @@ fractions k/den and whose `randint(a, b)` returns a value of [a, b]; what was dr
 is handed to the model as its oracle input.  A second stream uses a genuine
 `random.Random` and applies only the specification oracle."""
 import contextlib
+import glob
+import json
+import os
 import random as _random
 
 CLAIM = dict(
@@ -27,7 +30,12 @@ CLAIM = dict(
           "draws and by the Lean graph-search distance / walk / vector / hexagon predicates run on the implementation's "
           "outputs."),
     design="3/C11",
-    note=("random.random() is modelled as an exact fraction k/den (keys n + random() compared as n*den + k); the "
+    note=("FINDING torus-tiebreak-float-rounding: the key `distance + random.random()` of shortest_torus_path is a float "
+          "sum; when random.random() returns 1-2^-53 for a minimal approach and 0.0 for an earlier approach one hop "
+          "longer, both keys are equal and the longer vector is returned (probability about 2^-106 per call; concrete "
+          "replay in corpus/C11; repair fixes/torus-tiebreak-float-rounding.diff compares (distance, random()) tuples). "
+          "The theorems assume the exact comparison. "
+          "random.random() is modelled as an exact fraction k/den (keys n + random() compared as n*den + k); the "
           "harness feeds exactly representable fractions so the float addition is exact. Domain: integer coordinates, "
           "width/height >= 1 (0 is modelled as ZeroDivisionError for the torus functions)."),
     technique="Lean 4 theorems over a hand-written model + differential correspondence + Lean spec as oracle")
@@ -37,7 +45,7 @@ THEOREMS = ["links_consistent", "hexLen_unit_step", "meshLen_eq_dist", "torusLen
             "ldf_walk", "ldfOk_meaning",
             "hexagons_exact", "hexagons_negative", "hexDist_is_graph_distance",
             "fromVector_wrap", "oracle_distIs_iff", "oracle_levelOf_isDist", "linksBetween_exact",
-            "specLinksBetween_mem", "opposite_returns"]
+            "specLinksBetween_mem", "opposite_returns", "torus_vector_walk"]
 
 RULE = ("torus cases: for chosen (w, h, source chip) every or many destination chips, each in a random three-axis "
         "representation (random z offset, occasional multiples of w/h added), sizes include every w,h in 1..5; "
@@ -545,8 +553,19 @@ def gen_malformed(ctx, n):
     return cases
 
 
+def corpus_cases():
+    """minimised past failures and hand-picked seeds, run first"""
+    out = []
+    d = os.path.join(os.path.dirname(os.path.dirname(os.path.abspath(__file__))), "corpus", "C11")
+    for f in sorted(glob.glob(os.path.join(d, "*.json"))):
+        j = json.load(open(f))
+        out += j.get("cases", []) + ([j["case"]] if "case" in j else [])
+    return out
+
+
 def run(ctx):
     ctx.extra["rule"] = RULE
+    eval_cases(ctx, corpus_cases())
     ctx.assumptions += [
         "coordinates, widths and heights are Python ints; width, height >= 1",
         "random.random() returns a value of [0, 1) and key + random() is computed without rounding across an integer "
